@@ -533,6 +533,80 @@ def check_codec(prop, tier, seed, work, modes):
     return cov, r.get("violations") or []
 
 
+ENUM_TRACE_CFG = """SPECIFICATION TraceSpec
+POSTCONDITION TraceAccepted
+CHECK_DEADLOCK FALSE
+"""
+
+
+def check_enums(tier, seed, work):
+    """C17: the recorder dumps the generated name table of every enumerated type of every package with
+    goyang's names and the observed render / parse results; TLC validates every record against
+    EnumMap.tla (bijection, schema names, render-parse identity, UNSET never rendered, undefined
+    values are errors)."""
+    cfgs = ["us", "cw"] if tier == "quick" else ["us", "uw", "cs", "cw", "co", "un"]
+    h, bindir = vf.prepare(work, cfgs)
+    rec = os.path.join(work, "enums.ndjson")
+    r = run_replay(bindir, h, "enums", ["-in", rec, "-prop", "C17", "-pkgs", ",".join(cfgs), "-schemas", vf.SCHEMAS], work, "enums")
+    lines = [l for l in open(rec) if l.strip()]
+    if not lines:
+        raise Infra("no enumerated types recorded")
+    violations = []
+    accepted = 0
+    remaining = lines
+    rounds = 0
+    while remaining:
+        rounds += 1
+        if rounds > 40:
+            raise Infra("too many rejected enum records")
+        ok, n = vf.validate_trace(work, "EnumMap", ENUM_TRACE_CFG, remaining, "enum-r%d" % rounds)
+        accepted += n
+        if ok:
+            break
+        bad = json.loads(remaining[n])
+        obs = bad.get("obs") or []
+        cls = sorted({o["cls"] for o in obs})
+        sig = dict(conjunct="record-rejected", type=bad["type"], pkg=bad["pkg"])
+        # a hint for the classification (TLC is the judge): which observation classes look off
+        if any(o["cls"] == "zero" and str(o.get("tv", "")).startswith("rendered:") for o in obs) and bad["type"].endswith("_Enum"):
+            sig["unset_union_member_rendered"] = "true"
+            sig.pop("type"); sig.pop("pkg")
+        violations.append(dict(property="C17", sig=sig,
+                               detail="TLC rejects the record of enumerated type %s (package %s, %s): entries %s, schema names %s, observations %s" % (
+                                   bad["type"], bad["pkg"], bad.get("site"), bad["entries"], bad["schema"], json.dumps(obs)[:700]),
+                               case=dict(sub="trace", record=bad)))
+        remaining = remaining[n + 1:]
+    cov = dict(states=accepted + 1, transitions=accepted, traces_validated_against_impl=accepted, exhaustive=True,
+               enumerated_types=len(lines), observations=r["evaluated"], configurations=cfgs,
+               samples=[json.loads(lines[0])],
+               explanation="every generated enumerated type (typedef enumerations, identities, enumerations inside unions) of every package: "
+               "its \u039bEnum table, the names goyang finds for the type, and for every defined value, 0 and three undefined values "
+               "(-1, max+1, MaxInt64) what Marshal7951+Unmarshal, EncodeTypedValue+SetNode, TogNMINotifications and EnumName did; "
+               "each record is one step of EnumMap.tla's trace specification.")
+    return cov, violations
+
+
+FEAT_CFG = """SPECIFICATION Spec
+CONSTANTS
+  Mode = "%s"
+INVARIANT ModelLaws
+CONSTRAINT Emit
+"""
+
+
+def check_feat(prop, tier, seed, work, mode, explanation, samples):
+    """C07 / C33 / C30: FeatModel.tla over schemas/vf-feat.yang; every case is built as a GoStruct of
+    the package generated from the working tree and run through Validate / PopulateDefaults."""
+    h, bindir = vf.prepare(work, ["ft"])
+    mc = vf.run_tlc(work, "FeatModel", FEAT_CFG % mode, tag="feat" + mode, workers=8)
+    r = run_replay(bindir, h, "feat", ["-in", mc["out"], "-prop", prop, "-pkgs", "ft"], work, "feat")
+    if r["evaluated"] == 0:
+        raise Infra("feat replay evaluated nothing")
+    cov = dict(states=mc["distinct"], transitions=mc["states"], traces_validated_against_impl=r["evaluated"], exhaustive=True,
+               samples=samples, counters=r.get("counters"), configurations=["ft"], explanation=explanation)
+    return cov, r.get("violations") or []
+
+
 PIPELINES = {
     "C10": lambda tier, seed, work: check_tree("C10", tier, seed, work, "set,setll", ["SetGetFrame"]),
     "C12": lambda tier, seed, work: check_tree("C12", tier, seed, work, "delete", ["DeleteExact"]),
@@ -545,9 +619,26 @@ PIPELINES = {
     "C04": check_c04,
     "C13": lambda tier, seed, work: check_gnmiset("C13", tier, seed, work, "setreq", ["SetSemantics"]),
     "C06": check_restrict,
+    "C07": lambda tier, seed, work: check_feat("C07", tier, seed, work, "valid",
+        "FeatModel.tla (mode valid): Valid(t) over vf-feat.yang -- ranges (int8, uint16 with two parts, decimal64), string length and pattern, "
+        "defined enumeration / identity members, union members with their own restrictions, binary length, unique configuration leaf-list "
+        "values (state leaf-lists may repeat), min/max-elements of leaf-lists and lists, map key = key leaf, at most one case per choice; "
+        "three valid base trees, every valid single-field variation and every single-fault mutation; Validate() must fail exactly on the faults.",
+        [dict(fault="enum?:99", want="error"), dict(fault="cfgll=[a,a]", want="error"), dict(tree="all second valid values", want="no error")]),
+    "C30": lambda tier, seed, work: check_feat("C30", tier, seed, work, "leafref",
+        "FeatModel.tla (mode leafref): targets tgt[name] (0-2 entries, id, nested sub entries) x referrers: absolute path, relative path, "
+        "reference to a non-key leaf, predicate with current() (tgt[name=current()/../tname]/sub/s), leafref list keys; Dangling(t) from the "
+        "node sets; Validate() from the root must fail exactly on dangling references and never with IgnoreMissingData.",
+        [dict(tgt=["n1"], abs="n3", dangling=True), dict(tgt=["n1"], tname="n1", sref="s1", subs=[["n1", "s1"]], dangling=False)]),
+    "C33": lambda tier, seed, work: check_feat("C33", tier, seed, work, "defaults",
+        "FeatModel.tla (mode defaults): twelve defaulted leaves of every type (each set to another value or unset, singly and all but one), "
+        "a choice whose default case carries a default, and a list whose entries carry defaults in a leaf and a nested container; after "
+        "PopulateDefaults every unset defaulted leaf holds its default, set leaves are unchanged and a tree that validated still validates.",
+        [dict(set=[], ch="b1", dl="two-entries")]),
     "C08": check_pathstr,
     "C09": check_pathrel,
     "C16": lambda tier, seed, work: check_codec("C16", tier, seed, work, ["key"]),
+    "C17": check_enums,
     "C18": lambda tier, seed, work: check_codec("C18", tier, seed, work, ["json", "tv"]),
     "C15": lambda tier, seed, work: check_helpers("C15", tier, seed, work, "omap"),
     "C34": lambda tier, seed, work: check_helpers("C34", tier, seed, work, "klist"),
